@@ -215,11 +215,15 @@ class Run:
             self.results.append((r, ctx, err))
         # shape-specific rules that met another shape: deferred to their shape-independent fallbacks, if those ran and held
         by_id = {r.id: (r, c, e) for r, c, e in self.results}
+        # A rule with declared fallbacks reasons over one *shape* of the code.  Its findings and its failures are trusted only when
+        # the shape-independent fallbacks (concrete evaluation against a reference) do not hold either: when they all ran and held,
+        # the rule is recorded as deferred - whether it did not recognise the form, crashed on it, or read a violation into it.
         for i, (r, ctx, err) in enumerate(self.results):
-            if err and getattr(ctx, "form_not_recognised", False) and getattr(r, "fallback", ()):
+            if (err or ctx.violations) and getattr(r, "fallback", ()):
                 fbs = [by_id.get(fid) for fid in r.fallback]
-                if all(fb is not None and fb[2] is None for fb in fbs):
-                    ctx.notes.append(f"deferred to {', '.join(r.fallback)} (shape-independent): {err}")
+                if all(fb is not None and fb[2] is None and not fb[1].violations for fb in fbs):
+                    why = err or f"{len(ctx.violations)} uncorroborated finding(s), first: {ctx.violations[0].message[:300]}"
+                    ctx.notes.append(f"deferred to {', '.join(r.fallback)} (shape-independent, held): {why}")
                     ctx.deferred = True
                     ctx.violations = []  # verdicts of a model that does not fit the code's shape are not trusted
                     self.results[i] = (r, ctx, None)
